@@ -44,8 +44,15 @@ type failReader struct {
 
 var errReader = errors.New("injected reader failure")
 
+// errReaderEOF: the way a decompressor or a network body reports a stream that ended too early — an
+// error that wraps io.EOF (errors.Is(err, io.EOF) holds); it is a failure all the same
+var errReaderEOF = fmt.Errorf("source ended before its declared length: %w", io.EOF)
+
 func (r *failReader) Read(p []byte) (int, error) {
 	if r.pos >= len(r.data) {
+		if len(r.data)%2 == 1 {
+			return 0, errReaderEOF
+		}
 		return 0, errReader
 	}
 	n := copy(p, r.data[r.pos:])
@@ -431,6 +438,44 @@ func (e *Env) applyCore(op *Op) []string {
 		return e.applyRewrap(op)
 	case "readd":
 		return e.applyReadd(op)
+	case "mangle":
+		return e.applyMangle(op)
+	case "delmangled":
+		// delete the signature object whose envelope carries an entry that is no signature
+		if e.f == nil {
+			op.Raw = []string{"nop"}
+			return []string{"nop"}
+		}
+		var sid uint32
+		e.f.WithDescriptors(func(d sif.Descriptor) bool {
+			if d.DataType() != sif.DataSignature {
+				return false
+			}
+			b, err := d.GetData()
+			var env struct {
+				Signatures []struct {
+					KeyID string `json:"keyid"`
+					Sig   string `json:"sig"`
+				} `json:"signatures"`
+			}
+			if err != nil || json.Unmarshal(b, &env) != nil {
+				return false
+			}
+			for _, x := range env.Signatures {
+				if x.Sig == "" || x.Sig == "AAAA" || strings.Contains(x.Sig, "!") {
+					sid = d.ID()
+				}
+			}
+			return false
+		})
+		if sid == 0 {
+			op.Raw = []string{"nop"}
+			return []string{"nop"}
+		}
+		del := &Op{Kind: "del", Sel: Sel{Kind: "id", N: int64(sid)}, T: TOpt{Kind: "det"}}
+		obs := e.applyCore(del)
+		op.Raw = del.Lines()
+		return obs
 	case "ftrunc":
 		// the file is cut short behind the library's back; later commands see what is left
 		if op.Lib {
@@ -505,6 +550,11 @@ func (e *Env) applyCore(op *Op) []string {
 			e.fileSeq++
 			e.path = filepath.Join(e.dir, fmt.Sprintf("img%d.sif", e.fileSeq))
 			_ = os.Remove(e.path)
+			if len(op.COpts)%2 == 0 {
+				// an image is rebuilt in place: the path already holds a file (an older, longer image or
+				// unrelated bytes, nowhere zero); nothing of it may show in the new image
+				_ = os.WriteFile(e.path, bytes.Repeat([]byte{0xA5}, 200000), 0o644)
+			}
 		} else {
 			e.buf = sif.NewBuffer(dirtyCap(nil))
 		}
@@ -1012,6 +1062,35 @@ func (e *Env) applyForge(op *Op) []string {
 	if len(sigs) < 2 {
 		return skip()
 	}
+	if bytes.HasPrefix(sigs[0].blob, []byte("-----BEGIN PGP SIGNED MESSAGE-----")) && bytes.HasPrefix(sigs[len(sigs)-1].blob, []byte("-----BEGIN PGP SIGNED MESSAGE-----")) {
+		// clear-signed: one signature object holding two armored blocks — the outsider's block over
+		// the image as it is now and the trusted key's genuine block — in either order, under the
+		// descriptor (fingerprint) of the trusted signature
+		var fp []byte
+		e.f.WithDescriptors(func(d sif.Descriptor) bool {
+			if d.ID() == sigs[0].id {
+				_, fp, _ = d.SignatureMetadata()
+			}
+			return false
+		})
+		a, b := sigs[len(sigs)-1].blob, sigs[0].blob
+		if op.ID%2 == 1 {
+			a, b = b, a
+		}
+		crafted := append(append(append([]byte(nil), a...), '\n'), b...)
+		var subs []*Op
+		for _, s := range sigs {
+			subs = append(subs, &Op{Kind: "del", Sel: Sel{Kind: "id", N: int64(s.id)}, T: TOpt{Kind: "det"}})
+		}
+		subs = append(subs, &Op{Kind: "add", T: TOpt{Kind: "det"}, DI: sigObjectDI(crafted, gid, 0, 1, fp, 0)})
+		var obs []string
+		op.Raw = nil
+		for _, so := range subs {
+			obs = append(obs, e.applyCore(so)...)
+			op.Raw = append(op.Raw, so.Lines()...)
+		}
+		return obs
+	}
 	var good, evil map[string]json.RawMessage
 	if json.Unmarshal(sigs[0].blob, &good) != nil || json.Unmarshal(sigs[len(sigs)-1].blob, &evil) != nil ||
 		good["payload"] == nil || evil["payload"] == nil || good["signatures"] == nil {
@@ -1128,6 +1207,48 @@ func (e *Env) applyReadd(op *Op) []string {
 		}
 	}
 	op.Raw = lines
+	return obs
+}
+
+// applyMangle: the last DSSE signature object of group S.Groups[0] is replaced by the same envelope
+// with one more entry in its "signatures" list that is not a signature at all (op.N picks the kind:
+// text that is not base64, bytes that are no signature, an empty entry).
+func (e *Env) applyMangle(op *Op) []string {
+	skip := func() []string {
+		op.Raw = []string{"nop"}
+		return []string{"nop"}
+	}
+	if e.f == nil || len(op.S.Groups) == 0 {
+		return skip()
+	}
+	gid := op.S.Groups[0]
+	var blob []byte
+	var sid uint32
+	e.f.WithDescriptors(func(d sif.Descriptor) bool {
+		if l, isG := d.LinkedID(); d.DataType() == sif.DataSignature && isG && l == gid {
+			if b, err := d.GetData(); err == nil && bytes.HasPrefix(bytes.TrimSpace(b), []byte("{")) {
+				blob, sid = b, d.ID()
+			}
+		}
+		return false
+	})
+	var env map[string]any
+	if blob == nil || json.Unmarshal(blob, &env) != nil {
+		return skip()
+	}
+	sigs, _ := env["signatures"].([]any)
+	extra := []map[string]any{{"keyid": "", "sig": "!!! not base64 !!!"}, {"keyid": "x", "sig": "AAAA"}, {"keyid": "", "sig": ""}}[int(op.N)%3]
+	env["signatures"] = append(sigs, extra)
+	nb, err := json.Marshal(env)
+	if err != nil {
+		return skip()
+	}
+	del := &Op{Kind: "del", Sel: Sel{Kind: "id", N: int64(sid)}, T: TOpt{Kind: "det"}}
+	obs := e.applyCore(del)
+	add := &Op{Kind: "add", T: TOpt{Kind: "det"}, DI: sigObjectDI(nb, gid, 0, 1, nil, 0)}
+	obs = append(obs, e.applyCore(add)...)
+	op.Raw = append(del.Lines(), add.Lines()...)
+	op.ID = sid
 	return obs
 }
 
